@@ -96,6 +96,60 @@ func runC11(c *Ctx) {
 		c.R.Unk(rule, "chpool.Client", cfg, "", "no disposer call in the methods of chpool.Client (anchor lost)")
 	}
 
+	// ---- C11.slab
+	rule = "C11.slab"
+	c.R.Rule(rule, "handle structs handed out by getConn are never recycled: the per-connection slab is refilled with a fresh make, and otherwise only shrinks; re-slicing it back into its capacity would hand a new holder the very struct an earlier holder still has, so the earlier holder's stale Release acts on the new holder's resource pointer")
+	func() {
+		gc := p.Method(core.PkgPool, "connResource", "getConn")
+		if gc == nil {
+			c.R.Unk(rule, "chpool.(*connResource).getConn", cfg, "", "anchor lost")
+			return
+		}
+		n := 0
+		bad := false
+		for _, b := range gc.Blocks {
+			for _, in := range b.Instrs {
+				st, ok := in.(*ssa.Store)
+				if !ok {
+					continue
+				}
+				fa, ok := st.Addr.(*ssa.FieldAddr)
+				if !ok || fieldNameOnly(fa.X.Type(), fa.Field) != "clients" {
+					continue
+				}
+				n++
+				switch v := st.Val.(type) {
+				case *ssa.MakeSlice:
+				case *ssa.Slice:
+					if _, fresh := v.X.(*ssa.Alloc); fresh {
+						continue // make with constant size: slice of a fresh array
+					}
+					// must shrink: high = len(x) - k
+					shr := false
+					if bo, ok := v.High.(*ssa.BinOp); ok && bo.Op == token.SUB {
+						if cl, ok := bo.X.(*ssa.Call); ok {
+							if bi, ok := cl.Call.Value.(*ssa.Builtin); ok && bi.Name() == "len" {
+								shr = true
+							}
+						}
+					}
+					if !shr {
+						bad = true
+						c.R.Bad(rule, core.FuncName(gc), cfg, p.Pos(st.Pos()), "the handle slab is re-sliced to something other than len-1: already handed-out handle structs are reused")
+					}
+				default:
+					bad = true
+					c.R.Bad(rule, core.FuncName(gc), cfg, p.Pos(st.Pos()), "the handle slab is assigned an unrecognised value")
+				}
+			}
+		}
+		if n == 0 {
+			c.R.Unk(rule, core.FuncName(gc), cfg, p.Pos(gc.Pos()), "no slab assignment found")
+		} else if !bad {
+			c.R.Ok(rule, core.FuncName(gc), cfg, p.Pos(gc.Pos()), "fresh make when empty, otherwise pop from the end")
+		}
+	}()
+
 	// ---- C11.release
 	rule = "C11.release"
 	c.R.Rule(rule, "return-to-idle (Resource.Release) in chpool.Client.Release is reachable only through the false edge of client.IsClosed() and the false edge of the `age > MaxConnLifetime` comparison; the other edges destroy the resource; and (*ch.Client).Close marks the client closed on every path on which it attempts to close the connection, whatever conn.Close returns")
